@@ -176,6 +176,15 @@ Definition enc_repos (o : option (list (N * rentry))) : bytes :=
   | None => []
   | Some l => 2 :: put_uvarint (nlen l) ++ put_uvarint (N.of_nat (all_branches l)) ++ concat (map enc_entry l)
   end.
+(** version 1 of the ReposMap wire format ("the same, except it didn't have the IndexTimeUnix field"); /repo has no
+    writer for it any more, the decoder still accepts it *)
+Definition enc_entry_v1 (e : N * rentry) : bytes :=
+  let '(id, (hs, it, brs)) := e in
+  put_uvarint id ++ [if hs : bool then 1 else 0] ++ put_uvarint (nlen brs) ++ concat (map enc_branch brs).
+Definition enc_repos_v1 (l : list (N * rentry)) : bytes :=
+  1 :: put_uvarint (nlen l) ++ put_uvarint (N.of_nat (all_branches l)) ++ concat (map enc_entry_v1 l).
+Definition drop_time (e : N * rentry) : N * rentry := let '(id, (hs, it, brs)) := e in (id, (hs, 0%Z, brs)).
+
 Definition enc_br (l : list (bytes * bytes)) : bytes :=      (* (branch, serialised bitmap) *)
   1 :: put_uvarint (nlen l) ++ concat (map (fun p => enc_str (fst p) ++ enc_str (snd p)) l).
 
